@@ -663,6 +663,7 @@ class SimpRun(object):
         self.expr = ctx.mod('expression')
         scope = dict(NODE_CLASSES)
         scope.update(INT_CLASSES)
+        self.unevaluated = {}
         op_mod = Obj('operator')
         for nm_, f_ in (('add', lambda a, b: a + b), ('sub', lambda a, b: a - b), ('mul', lambda a, b: a * b), ('xor', lambda a, b: a ^ b), ('and_', lambda a, b: a & b),
                         ('or_', lambda a, b: a | b), ('rshift', lambda a, b: a >> b), ('lshift', lambda a, b: a << b), ('neg', lambda a: -a), ('eq', lambda a, b: a == b), ('ne', lambda a, b: a != b)):
@@ -676,8 +677,8 @@ class SimpRun(object):
                 if isinstance(st, ast.Assign) and len(st.targets) == 1 and isinstance(st.targets[0], ast.Name) and st.targets[0].id not in NODE_CLASSES:
                     try:
                         scope[st.targets[0].id] = Evaluator(scope).ev(st.value)
-                    except NotConst:
-                        pass
+                    except NotConst as e:
+                        self.unevaluated[st.targets[0].id] = str(e)
         for need in ('canonize_expr_list', 'key_expr'):
             if need not in self.expr.funcs:
                 raise AnalysisError('expression.%s not found' % need)
@@ -712,6 +713,8 @@ class SimpRun(object):
             if 'does not terminate within the evaluation bound' in msg:
                 return 'loops', msg
             if msg.startswith('name '):
+                if msg[5:] in self.unevaluated:
+                    raise AnalysisError('expression_helper: the module-level value of %s is outside the evaluable subset (%s)' % (msg[5:], self.unevaluated[msg[5:]]))
                 return 'raises', 'NameError(%s)' % msg[5:]
             raise AnalysisError('%s is outside the evaluable subset on %s: %s' % (fname, show(e), msg))
         except (TypeError, ValueError, KeyError, IndexError, AttributeError, ZeroDivisionError) as ex:
